@@ -1639,7 +1639,7 @@ const KEYS: [&str; 20] = [
     "k1", "k2", "alpha", "Alpha", "a_b", "a-b", "aB", "ab", "label", "0", "ключ", "日本", "x y", "items", "weight", "shortName", "é1", "É1", "ALPHA", "k-1",
 ];
 
-fn how_s() -> impl Strategy<Value = How> {
+fn how_s() -> impl Strategy<Value = How> + Clone + use<> {
     prop_oneof![
         6 => Just(How::Direct),
         1 => Just(How::Anchored),
@@ -1649,7 +1649,7 @@ fn how_s() -> impl Strategy<Value = How> {
         1 => Just(How::MergeAlias),
     ]
 }
-fn sleaf_s(c: (usize, usize), pbad: u32) -> impl Strategy<Value = SLeaf> {
+fn sleaf_s(c: (usize, usize), pbad: u32) -> impl Strategy<Value = SLeaf> + Clone + use<> {
     (0u32..100, any::<u16>(), 0u8..3, how_s(), prop::bool::weighted(0.15)).prop_map(move |(roll, idx, sty, how, cmt)| {
         let want_bad = roll >= 100 - pbad;
         let list: Vec<&str> = STRS.iter().copied().filter(|s| sbad(s, c) == want_bad).collect();
@@ -1657,7 +1657,7 @@ fn sleaf_s(c: (usize, usize), pbad: u32) -> impl Strategy<Value = SLeaf> {
         SLeaf { v, sty, how, cmt }
     })
 }
-fn nleaf_s(c: (i64, i64), pbad: u32) -> impl Strategy<Value = NLeaf> {
+fn nleaf_s(c: (i64, i64), pbad: u32) -> impl Strategy<Value = NLeaf> + Clone + use<> {
     (0u32..100, any::<u16>(), how_s(), prop::bool::weighted(0.15)).prop_map(move |(roll, idx, how, cmt)| {
         let want_bad = roll >= 100 - pbad;
         let list: Vec<i64> = INTS.iter().copied().filter(|v| nbad(*v, c) == want_bad).collect();
@@ -1665,7 +1665,7 @@ fn nleaf_s(c: (i64, i64), pbad: u32) -> impl Strategy<Value = NLeaf> {
         NLeaf { v, how, cmt }
     })
 }
-fn item_s(pbad: u32) -> impl Strategy<Value = ItemD> {
+fn item_s(pbad: u32) -> impl Strategy<Value = ItemD> + Clone + use<> {
     (
         sleaf_s(LABEL, pbad),
         nleaf_s(WEIGHT, pbad),
@@ -1677,7 +1677,7 @@ fn item_s(pbad: u32) -> impl Strategy<Value = ItemD> {
     )
         .prop_map(|(label, weight, tags, flow, tags_flow, whole, merge_at)| ItemD { label, weight, tags, flow, tags_flow, whole, merge_at })
 }
-fn doc_s(pbad: u32, keys: &'static [&'static str]) -> impl Strategy<Value = DocD> {
+fn doc_s(pbad: u32, keys: &'static [&'static str]) -> impl Strategy<Value = DocD> + Clone + use<> {
     let net = (sleaf_s(HOST_NAME, pbad), nleaf_s(PORT_NO, pbad), prop::collection::vec(item_s(pbad), 0..3), prop::bool::weighted(0.25), any::<bool>(), 0u8..4)
         .prop_map(|(host_name, port_no, back_ups, flow, seq_flow, merge_at)| NetD { host_name, port_no, back_ups, flow, seq_flow, merge_at });
     let leaves = (sleaf_s(SHORT_NAME, pbad), nleaf_s(MAX_COUNT, pbad), sleaf_s(TYPE_, pbad), nleaf_s(AB_C, pbad), nleaf_s(A_BC, pbad));
@@ -1706,11 +1706,11 @@ fn doc_s(pbad: u32, keys: &'static [&'static str]) -> impl Strategy<Value = DocD
         lead,
     })
 }
-fn layout_s() -> impl Strategy<Value = Layout> {
+fn layout_s() -> impl Strategy<Value = Layout> + Clone + use<> {
     (prop::bool::weighted(0.3), prop::sample::select(vec![2u8, 4]), any::<bool>(), prop::sample::select(vec![0u8, 0, 2, 3, 5]), prop::bool::weighted(0.2))
         .prop_map(|(crlf, step, seq_indent, cmt_every, blank)| Layout { crlf, step, seq_indent, cmt_every, blank })
 }
-fn case_s(eps: Vec<Ep>, keys: &'static [&'static str], rates: Vec<u32>) -> impl Strategy<Value = Case> {
+fn case_s(eps: Vec<Ep>, keys: &'static [&'static str], rates: Vec<u32>) -> impl Strategy<Value = Case> + Clone + use<> {
     (
         prop::sample::select(vec![Krate::Garde, Krate::Validator]),
         prop::sample::select(eps),
@@ -1890,12 +1890,14 @@ impl Property for C18 {
         let singles = vec![Ep::Str, Ep::StrOpt, Ep::Slice, Ep::Reader];
         let streams = vec![Ep::Multiple, Ep::SliceMultipleOpt, Ep::Read];
         let keys: &'static [&'static str] = &KEYS;
-        let nt = |c: &Case| count_classes(&classes, c);
-        ctx.run_strategy("random-single", 1, ctx.tier.pick(6_500, 150_000), &case_s(singles, keys, vec![0, 6, 6, 20, 20, 100]), nt);
-        ctx.run_strategy("random-stream", 2, ctx.tier.pick(3_600, 80_000), &case_s(streams, keys, vec![0, 6, 20, 20, 50, 100]), nt);
+        let classes = std::rc::Rc::new(classes);
+        let classes2 = classes.clone();
+        let nt = move |c: &Case| count_classes(&classes2, c);
+        ctx.run_strategy("random-single", 1, ctx.tier.pick(6_500, 150_000), &case_s(singles, keys, vec![0, 6, 6, 20, 20, 100]), nt.clone());
+        ctx.run_strategy("random-stream", 2, ctx.tier.pick(3_600, 80_000), &case_s(streams, keys, vec![0, 6, 20, 20, 50, 100]), nt.clone());
         let coll: &'static [&'static str] = &COLLIDE_KEYS;
         ctx.run_strategy("random-colliding-keys", 3, ctx.tier.pick(2_200, 50_000), &case_s(EPS.to_vec(), coll, vec![30, 60, 100]), nt);
-        for (k, v) in classes.into_inner() {
+        for (k, v) in classes.take() {
             ctx.class_n(&k, v);
         }
     }
@@ -2150,4 +2152,10 @@ fn main() {
         return;
     }
     engine::main::<C18>()
+}
+
+/// entry point of the libFuzzer target `fuzz/fuzz_targets/c18.rs`
+#[allow(dead_code)]
+pub fn fuzz(data: &[u8]) {
+    engine::fuzz_one::<C18>(data)
 }
